@@ -76,7 +76,7 @@ pub enum Error {
 impl From<Error> for io::Error {
     fn from(v: Error) -> Self {
         match v {
-            Error::AbortRequest => io::ErrorKind::ConnectionAborted.into(),
+            e @ Error::AbortRequest => Self::new(io::ErrorKind::ConnectionAborted, e),
             e @ (Error::UnknownVersion(_)
             | Error::InvalidRequestLen(_)
             | Error::NullRequest
